@@ -4,6 +4,8 @@ set_option autoImplicit false
 set_option linter.style.nameCheck false
 set_option linter.unusedVariables false
 set_option linter.unusedSimpArgs false
+set_option linter.unusedTactic false
+set_option linter.unreachableTactic false
 -- GENERATED on every run from /repo/src/spake2/ed25519_basic.py by pyvc/leangen.py; do not edit
 def Q : ℕ := 2^255 - 19
 def spake_d : ℤ := (-4513249062541557337682894930092624173785641285191125241628941591882900924598840740 : ℤ)
@@ -461,6 +463,12 @@ theorem Q_ne_zero_int : (Q : ℤ) ≠ 0 := by exact_mod_cast Q_pos.ne'
 theorem Q_pos_int : 0 < (Q : ℤ) := by exact_mod_cast Q_pos
 theorem Q_gt_one_int : 1 < (Q : ℤ) := by exact_mod_cast (lt_trans (by norm_num) Q_gt_two : 1 < Q)
 
+/-- normal form of the generated predicate (propositional reshuffling only) -/
+theorem is_extended_zero_def (X Y Z T : ℤ) : spake_is_extended_zero X Y Z T ↔
+    (X = 0 ∧ Y % (Q:ℤ) = Z % (Q:ℤ) ∧ Y % (Q:ℤ) ≠ 0) := by
+  simp only [spake_is_extended_zero] <;>
+    (generalize Y % (Q:ℤ) = a; generalize Z % (Q:ℤ) = b; tauto)
+
 section Main
 variable [Fact (Nat.Prime Q)]
 
@@ -662,7 +670,8 @@ theorem int_eq_zero_of_cast {X : ℤ} (h0 : 0 ≤ X) (h1 : X < Q) (h : (X:F) = 0
 theorem is_extended_zero_correct {X Y Z T : ℤ} (h : Valid X Y Z T) :
     (spake_is_extended_zero X Y Z T ↔ pt X Y Z = eO) := by
   obtain ⟨hX0, hX1, hY0, hY1, hZ0, hZ1, -, -, hZ, -, -⟩ := h
-  simp only [spake_is_extended_zero, pt, eO, Prod.mk.injEq]
+  rw [is_extended_zero_def]
+  simp only [pt, eO, Prod.mk.injEq]
   constructor
   · rintro ⟨hx, hyz, -⟩
     have hyz' : (Y:F) = Z := by
@@ -688,8 +697,8 @@ theorem spake_inv_cast {z : ℤ} (hz : (z:F) ≠ 0) : ((spake_inv z : ℤ) : F) 
   have hn : ((Q:ℤ) - 2).toNat = Q - 2 := by
     have := Q_gt_two; omega
   simp only [spake_inv]
-  rw [ZMod.intCast_mod, hn]
-  push_cast
+  push_cast [ZMod.intCast_mod]
+  try rw [hn]
   have h1 : (z:F)^(Q-1) = 1 := ZMod.pow_card_sub_one_eq_one hz
   have h2 : (z:F)^(Q-2) * z = 1 := by
     rw [← pow_succ, show Q - 2 + 1 = Q - 1 by have := Q_gt_two; omega]; exact h1
@@ -702,10 +711,10 @@ theorem xform_extended_correct {X Y Z T : ℤ} (h : Valid X Y Z T) :
   obtain ⟨-, -, -, -, -, -, -, -, hZ, -, -⟩ := h
   have hX : ((r.1 : ℤ) : F) = X * (Z:F)⁻¹ := by
     simp only [r, spake_xform_extended_to_affine]
-    push_cast [ZMod.intCast_mod]; rw [spake_inv_cast hZ]
+    push_cast [ZMod.intCast_mod]; rw [spake_inv_cast hZ] <;> ring
   have hY : ((r.2 : ℤ) : F) = Y * (Z:F)⁻¹ := by
     simp only [r, spake_xform_extended_to_affine]
-    push_cast [ZMod.intCast_mod]; rw [spake_inv_cast hZ]
+    push_cast [ZMod.intCast_mod]; rw [spake_inv_cast hZ] <;> ring
   refine ⟨?_, ?_, ?_, ?_, ?_⟩
   · simp only [r, spake_xform_extended_to_affine]; exact Int.emod_nonneg _ Q_ne_zero_int
   · simp only [r, spake_xform_extended_to_affine]; exact Int.emod_lt_of_pos _ Q_pos_int
